@@ -4,17 +4,17 @@ package main
 
 import (
 	"fmt"
-	"os"
-	"path/filepath"
-	"runtime"
-	"time"
 	"go/constant"
 	"go/token"
 	"go/types"
 	"math/big"
+	"os"
+	"path/filepath"
+	"runtime"
 	"sort"
 	"strconv"
 	"strings"
+	"time"
 
 	"golang.org/x/tools/go/ssa"
 )
@@ -25,6 +25,7 @@ type Obligation struct {
 	Func    string
 	Props   []string
 	Hyps    []*Term
+	From    []*Term // proof hint: a subset of Hyps tried first (sound: hypotheses are only dropped)
 	Goal    *Term
 	Alt     *Term // optional stronger goal tried first
 	NIA     bool
@@ -37,35 +38,36 @@ type Obligation struct {
 }
 
 type Engine struct {
-	templateMode bool             // replay: stop after building the entry state and evaluate the ensures over placeholders
+	curFrom      []string // proof hint of the assert being generated
+	templateMode bool     // replay: stop after building the entry state and evaluate the ensures over placeholders
 	templateOut  *replayTemplates
-	curContract *Contract // contract of the function being verified
-	nilBytes *Region // backing of the empty byte string that stands for nil slices in DER predicates
-	prog     *ssa.Program
-	pkgs     map[string]*ssa.Package
-	db       *SpecDB
-	modPath  string
-	regionN  int
-	varN     int
-	obls     []*Obligation
-	oblNames map[string]int
-	globals  map[*ssa.Global]*Region
-	gmem     *Memory // initial memory of globals after package initialisation
-	ginit    map[string]bool
-	concrete bool // ground evaluation mode (package initialisers)
-	curProps []string
-	curFunc  string
-	variant  string
-	inlined  map[string]bool
-	trusted  map[string]string
-	errors   []string
-	maxSteps int
-	steps    int
-	strRegs  map[string]*Region
-	embed    map[string][]byte
-	skipInit map[string]bool
-	sizes    types.Sizes
-	windows    map[int]*windowInfo
+	curContract  *Contract // contract of the function being verified
+	nilBytes     *Region   // backing of the empty byte string that stands for nil slices in DER predicates
+	prog         *ssa.Program
+	pkgs         map[string]*ssa.Package
+	db           *SpecDB
+	modPath      string
+	regionN      int
+	varN         int
+	obls         []*Obligation
+	oblNames     map[string]int
+	globals      map[*ssa.Global]*Region
+	gmem         *Memory // initial memory of globals after package initialisation
+	ginit        map[string]bool
+	concrete     bool // ground evaluation mode (package initialisers)
+	curProps     []string
+	curFunc      string
+	variant      string
+	inlined      map[string]bool
+	trusted      map[string]string
+	errors       []string
+	maxSteps     int
+	steps        int
+	strRegs      map[string]*Region
+	embed        map[string][]byte
+	skipInit     map[string]bool
+	sizes        types.Sizes
+	windows      map[int]*windowInfo
 	tableRegions []*Region
 	eagerPrune   bool
 	tables       *tableData
@@ -77,33 +79,46 @@ type Engine struct {
 	feasN        int
 	inlinedExt   map[string]bool
 	anyReturn    bool
-	usedIntr   map[string]bool
-	usedLemmas map[string]bool
+	usedIntr     map[string]bool
+	usedLemmas   map[string]bool
 }
 
 type State struct {
-	mem     *Memory
-	hyps    []*Term
-	hypKeys map[string]bool
-	entryH  int // number of hyps that are entry assumptions (kept across cuts)
-	subst   map[string]*Term
-	names   map[string]Value // source-level local names (from DebugRef)
-	cuts    map[string]bool
-	subMemo map[string]*Term
-	memoShared bool
-	written map[string]bool // cells stored to since entry (even if the old value was stored back)
-	pendingFork *Term // case split requested by a `fork` clause, taken after the current instruction
-	entryNonzero map[string]bool
-	nonzero map[string]bool // residue atoms known to be non-zero (exponents reduce by Fermat)
-	entrySubst map[string]*Term // rewrite rules known at function entry (restored at a forgetting cut)
-	binds    map[string]int       // number of distinct values bound to a source-level name so far
-	lastBind map[string]ssa.Value
-	visits  map[*ssa.BasicBlock]int // symbolic forks per block on this path (loops without invariant)
-	weak    map[string]bool
-	inLoop  map[*ssa.BasicBlock]bool
-	ghost   map[string]Value
-	epoch   int
-	trace   []string
+	mem             *Memory
+	hyps            []*Term
+	hypKeys         map[string]bool
+	entryH          int // number of hyps that are entry assumptions (kept across cuts)
+	subst           map[string]*Term
+	names           map[string]Value // source-level local names (from DebugRef)
+	cuts            map[string]bool
+	subMemo         map[string]*Term
+	memoShared      bool
+	written         map[string]bool // cells stored to since entry (even if the old value was stored back)
+	pendingForkName string
+	labelHyps       map[string][2]int // facts introduced by a labelled clause: index range in hyps
+	pendingFork     *Term             // case split requested by a `fork` clause, taken after the current instruction
+	entryNonzero    map[string]bool
+	nonzero         map[string]bool  // residue atoms known to be non-zero (exponents reduce by Fermat)
+	entrySubst      map[string]*Term // rewrite rules known at function entry (restored at a forgetting cut)
+	binds           map[string]int   // number of distinct values bound to a source-level name so far
+	lastBind        map[string]ssa.Value
+	visits          map[*ssa.BasicBlock]int // symbolic forks per block on this path (loops without invariant)
+	weak            map[string]bool
+	inLoop          map[*ssa.BasicBlock]bool
+	ghost           map[string]Value
+	epoch           int
+	trace           []string
+}
+
+// markLabel records that the hypotheses added since index h0 were introduced by the clause `name`.
+func (s *State) markLabel(name string, h0 int) {
+	if name == "" || h0 > len(s.hyps) {
+		return
+	}
+	if s.labelHyps == nil {
+		s.labelHyps = map[string][2]int{}
+	}
+	s.labelHyps[name] = [2]int{h0, len(s.hyps)}
 }
 
 func (s *State) fork() *State {
@@ -125,6 +140,12 @@ func (s *State) fork() *State {
 		n.cuts[k] = true
 	}
 	n.entrySubst = s.entrySubst
+	if len(s.labelHyps) > 0 {
+		n.labelHyps = make(map[string][2]int, len(s.labelHyps))
+		for k, v := range s.labelHyps {
+			n.labelHyps[k] = v
+		}
+	}
 	if len(s.written) > 0 {
 		n.written = make(map[string]bool, len(s.written))
 		for k := range s.written {
@@ -1009,6 +1030,18 @@ func (e *Engine) addObligation(st *State, fr *Frame, kind, label string, goal *T
 	}
 	if o.Result == nil {
 		o.Hyps = append([]*Term{}, st.hyps...)
+		if len(e.curFrom) > 0 {
+			o.From = []*Term{}
+			for _, l := range e.curFrom {
+				if l == "entry" {
+					o.From = append(o.From, st.hyps[:st.entryH]...)
+					continue
+				}
+				if r, ok := st.labelHyps[l]; ok && r[1] <= len(st.hyps) {
+					o.From = append(o.From, st.hyps[r[0]:r[1]]...)
+				}
+			}
+		}
 	}
 	if dbg := os.Getenv("VCGO_DEBUG_OBL"); dbg != "" && strings.Contains(name, dbg) {
 		fmt.Fprintf(os.Stderr, "[obl] %s\n   goal: %s\n", name, trunc(pretty(goal, 9), 6000))
@@ -1798,8 +1831,11 @@ func (e *Engine) execFrom(st *State, fr *Frame, b *ssa.BasicBlock, prev *ssa.Bas
 					st.pendingFork = nil
 					st2 := st.fork()
 					fr2 := fr.fork()
+					h0 := len(st.hyps)
 					st.assumeCase(c)
 					st2.assumeCase(mkNot(c))
+					st.markLabel(st.pendingForkName, h0)
+					st2.markLabel(st.pendingForkName, h0)
 					var out []Exit
 					if !st.infeasible() && !e.unsatisfiable(st.hyps) {
 						out = append(out, e.guarded(st, func() []Exit { return e.execFrom(st, fr, b, prev, idx+1) })...)
